@@ -8,3 +8,7 @@ import TrackVerif.TA.Driver
 import TrackVerif.TA.PropsC02
 import TrackVerif.TA.PropsC10
 import TrackVerif.TA.PropsC15
+import TrackVerif.Conv.Driver
+import TrackVerif.Conv.PropsC03
+import TrackVerif.Conv.PropsC11
+import TrackVerif.Conv.PropsC12
